@@ -16,6 +16,7 @@ import (
 	"github.com/lidofinance/dc4bc/airgapped"
 
 	"verifharness/sched"
+	"verifharness/world"
 )
 
 var Out io.Writer = os.Stdout
@@ -337,6 +338,7 @@ func silence() {
 
 func Main(args []string) int {
 	silence()
+	world.RaiseFDLimit()
 	airgapped.N = 4 // scrypt cost (exported knob); AES-GCM authentication is unaffected
 	switch args[0] {
 	case "check":
